@@ -39,7 +39,7 @@ ASSUMPTIONS = ['_RangeIterator read-ahead size is >= 1 (max_batch_size >= 1).',
 
 
 def run(ctx: Ctx):
-  for r in (r1, r2, r3, r4, r6, r7, r8, r9, r10, r12, r13, r14, r15, r16, r17, r18):
+  for r in (r1, r2, r3, r4, r6, r7, r8, r9, r10, r12, r13, r14, r15, r16, r17, r18, r19):
     ctx.guard(r)
   from mlmverif.props import c10
   ctx.include('R-C09-11', '"rebuilding a shard from its recorded state yields the same'
@@ -1207,10 +1207,39 @@ def r18(ctx: Ctx):
   ctx.floor(rule, 4, n)
 
 
+def r19(ctx: Ctx):
+  rule = 'R-C09-19'
+  ctx.rule(rule, '"for all read-ahead sizes ... sub-sequences that only support integer indexing": the range iterator tries a SLICE'
+           ' read first and falls back to smaller reads, down to single integer indices, when that read fails — for'
+           ' WHATEVER the source raises for a slice (TypeError, KeyError of a dict keyed 0..n-1, a library-specific error).'
+           ' The handler around the read of `_RangeIterator.__next__` is therefore `except Exception` (or broader), not a'
+           ' fixed tuple of types: a source that rejects slices with another type would never be read element by element')
+  ci = ctx.repo.cls('utils.iter_utils', '_RangeIterator')
+  fi = ci.methods.get('__next__')
+  n = 0
+  for t in ast.walk(fi.node):
+    if not isinstance(t, ast.Try):
+      continue
+    if not any(isinstance(y, ast.Subscript) and 'self.data' in unparse(y.value) for b in t.body for y in ast.walk(b)):
+      continue
+    n += 1
+    broad = any(h.type is None or unparse(h.type) in ('Exception', 'BaseException') for h in t.handlers)
+    what = '_RangeIterator.__next__: any failure of a read falls back to smaller reads'
+    if broad:
+      ctx.ok(rule, fi, what, t)
+    else:
+      ctx.fail(rule, fi, what,
+               f'the read is guarded by `except {unparse(t.handlers[0].type)}` only: a sub-sequence that rejects a slice with another'
+               ' exception type (KeyError, a custom error) aborts the iteration instead of being read index by index', node=t.handlers[0])
+  ctx.floor(rule, 1, n)
+
+
 from mlmverif.selfcheck import B, OK  # noqa: E402
 
 _F = 'chainables/io.py'
 VARIANTS = [
+    B('read-fallback-for-listed-error-types-only', 'utils/iter_utils.py',
+      "        self.i += batch_size\n      except Exception as e:  # pylint: disable=broad-exception-caught", "        self.i += batch_size\n      except (ValueError, TypeError, IndexError, NotImplementedError) as e:", 'R-C09-19'),
     B('parent-chain-excluded-from-state-equality', 'chainables/io.py',
       "  parent: ShardConfig | None = dc.field(default=None, kw_only=True)", "  parent: ShardConfig | None = dc.field(default=None, kw_only=True, compare=False)", 'R-C09-18'),
     OK('sequence-iterator-counts-after-a-successful-draw-in-else', 'chainables/io.py',
